@@ -64,6 +64,9 @@ func NewWatchStream() *WatchStream {
 }
 
 func (s *WatchStream) Send(r *etcdserverpb.WatchResponse) error {
+	// a send on a gRPC stream takes a lock and does I/O: it is a scheduling point (other goroutines of the
+	// watch server can get their own responses in first)
+	vrt.Yield("watch stream send")
 	if s.SendErr != nil {
 		return s.SendErr
 	}
